@@ -150,11 +150,11 @@ def render_rule(r: Rule) -> str:
     out += r.name
     for t in r.types:
         out += f'::{t}'
-    if r.base:
-        out += f' < {r.base}'
     if r.params or r.kwparams:
         parts = [render_param(p) for p in r.params] + [f'{k}={render_param(v)}' for k, v in r.kwparams]
         out += '[' + ', '.join(parts) + ']'
+    if r.base:
+        out += f' < {r.base}'
     out += ': ' + render(r.exp) + ' ;'
     return out
 
